@@ -3,7 +3,10 @@ Model of the two gcov readers of src/parser.rs.
 
 * `Gcov.Text.parse` — `parse_gcov` (gcov's intermediate text format, gcov ≤ 7): the file is cut into
   lines the way `BufRead::read_until(b'\n')` does, every line loses its trailing CR/LF bytes
-  (`remove_newline`), is cut at the first ':' (`splitn(2, ':')`) and dispatched on its key.
+  (`remove_newline`), is decoded with `String::from_utf8_lossy` (since /repo 7f9b2b3: every maximal
+  ill-formed byte sequence becomes U+FFFD, `Lcov.utf8Lossy`; before, `from_utf8_unchecked`), is cut
+  at the first ':' (`splitn(2, ':')`) and dispatched on its key. File and function names are
+  therefore the lossy decoding of the bytes in the file (valid UTF-8 is kept byte for byte).
   `u32::from_str` / `u64::from_str` are modelled exactly (`parseUInt`). No `unwrap` is left in
   the function (lines read without any `file:` record are `Err(InvalidRecord)`), so no program point
   of the model yields `Out.panic`; the constructor stays for the driver protocol.
@@ -12,10 +15,21 @@ Model of the two gcov readers of src/parser.rs.
   `Deserialize` impls of `GcovJson`/`GcovFile`/`GcovLine`/`GcovBr`/`GcovFunction` and to
   `deserialize_counter`. `Json.fromReader none` is "flate2 or serde_json reported an error"; every
   such error, and every schema error, is `Err(InvalidData)` (`map_err(..)?`).
+  Since /repo 5a9c87e a line that the `lines` array lists several times (gcov ≥ 9 writes one entry
+  per instance of a function group: template instantiations, constructor variants) gets the
+  saturating SUM of its counts and the position-wise OR of its branch vectors (the longer vector
+  gives the length), and functions with the same demangled name OR their executed flags (the first
+  start line is kept); before, the last entry won.
+  The gzip layer (trusted): `GzDecoder` reads ONE gzip member and serde_json's `from_reader` stops
+  after the JSON value plus trailing white space; what follows the first member in the FILE (a
+  second member, arbitrary trailing bytes) is never requested from the decoder and therefore
+  silently ignored – `fromReader (some j)` with `j` the value of the first member (tie: harness
+  c09, `json.gzip_trailing.*`). Trailing non-blank characters INSIDE the member are an error.
 
 Core Lean only (linked into the native driver `gm_c09`).
 -/
 import GrcovModel.Merge
+import GrcovModel.Lcov
 namespace Grcov.Gcov
 open Grcov AList
 
@@ -164,8 +178,8 @@ def procStripped (a : Acc) (l : Bytes) : St :=
           | some tok => .run (onBranch a line (decide (tok = tTaken)))
     else .run a
 
-/-- one line as returned by `read_until` -/
-def procLine (a : Acc) (raw : Bytes) : St := procStripped a (stripEol raw)
+/-- one line as returned by `read_until`: `remove_newline`, then `String::from_utf8_lossy` -/
+def procLine (a : Acc) (raw : Bytes) : St := procStripped a (Lcov.utf8Lossy (stripEol raw))
 
 def stepLine : St → Bytes → St
   | .halt o, _ => .halt o
@@ -388,18 +402,34 @@ def decDoc : Json → Option (List FileJ)
     | _, _, _, _, _ => none
   | _ => none
 
-/-- `lines.insert(line_number, count)` for every line, in order -/
-def fileLines (ls : List LineJ) : List (Nat × Nat) :=
-  ls.foldl (fun m ln => set m ln.lineNumber ln.count) []
+/-- `let count = lines.entry(line_number).or_insert(0); *count = count.saturating_add(line.count)` -/
+def addCount (m : List (Nat × Nat)) (l c : Nat) : List (Nat × Nat) :=
+  set m l (satAdd ((get? m l).getD 0) c)
 
-/-- `branches.insert(line_number, counts.map(|c| c > 0))` for every line that has branches -/
+/-- the first loop of a file, line counts: every entry adds its count to the line's (saturating) -/
+def fileLines (ls : List LineJ) : List (Nat × Nat) :=
+  ls.foldl (fun m ln => addCount m ln.lineNumber ln.count) []
+
+/-- `let all = branches.entry(line_number).or_default(); for (i, t) in taken.enumerate() { if i <
+all.len() { all[i] |= t } else { all.push(t) } }`: position-wise OR, the tail of the longer vector
+is kept – `Grcov.zipOr` -/
+def orBranches (m : List (Nat × List Bool)) (l : Nat) (taken : List Bool) : List (Nat × List Bool) :=
+  set m l (zipOr ((get? m l).getD []) taken)
+
+/-- the same loop, branches: only entries that have branches touch the map -/
 def fileBranches (ls : List LineJ) : List (Nat × List Bool) :=
   ls.foldl (fun m ln =>
     if ln.branches.isEmpty then m
-    else set m ln.lineNumber (ln.branches.map fun c => decide (c > 0))) []
+    else orBranches m ln.lineNumber (ln.branches.map fun c => decide (c > 0))) []
 
-def fileFunctions (fs : List FnJ) : List (Name × Fn) :=
-  fs.foldl (fun m f => set m f.demangled ⟨f.startLine, decide (f.exec > 0)⟩) []
+/-- `functions.entry(demangled_name).and_modify(|f| f.executed |= executed).or_insert(Function {
+start, executed })` -/
+def addFunction (m : List (Name × Fn)) (f : FnJ) : List (Name × Fn) :=
+  match get? m f.demangled with
+  | some g => set m f.demangled { g with executed := g.executed || decide (f.exec > 0) }
+  | none => set m f.demangled ⟨f.startLine, decide (f.exec > 0)⟩
+
+def fileFunctions (fs : List FnJ) : List (Name × Fn) := fs.foldl addFunction []
 
 /-- one iteration of `for mut file in gcov.files.drain(..)`; `none` = `continue` -/
 def convFile (f : FileJ) : Option (Bytes × Cov) :=
